@@ -66,6 +66,27 @@ def get(name: str):
             df.to_csv(path, index=False)
             m = create_basic_pk_model('iv' if name == 'basic_iv' else 'oral', dataset_path=path)
             return m
+        if name in ('oral_cmt_nm', 'oral_periph_cmt_nm'):
+            # NONMEM oral model whose dataset has a (non-dropped) CMT column: doses into compartment 1,
+            # observations of compartment 2; read back from files so that $INPUT/$DATA describe it
+            import shutil
+
+            from pharmpy.modeling import add_peripheral_compartment, convert_model, write_model
+
+            base = convert_model(get('basic_oral'), 'nonmem')
+            if name == 'oral_periph_cmt_nm':
+                base = add_peripheral_compartment(base)
+            df = base.dataset.copy()
+            df['CMT'] = [1 if a > 0 else 2 for a in df['AMT']]
+            from pharmpy.model import ColumnInfo
+
+            di = (base.datainfo + ColumnInfo.create('CMT', type='compartment', datatype='int32')).replace(path=None)
+            m = base.replace(dataset=df, datainfo=di).update_source()
+            d = os.path.join(os.path.dirname(os.path.dirname(os.path.abspath(__file__))), '.scratch', f'corpus_{os.getpid()}', name)
+            shutil.rmtree(d, ignore_errors=True)
+            os.makedirs(d, exist_ok=True)
+            write_model(m, os.path.join(d, 'run1.mod'), force=True)
+            return read_model(os.path.join(d, 'run1.mod'))
         if name in ('basic_iv_nm', 'basic_oral_nm'):
             from pharmpy.modeling import convert_model
 
@@ -78,7 +99,7 @@ def get(name: str):
 
 @functools.lru_cache(maxsize=None)
 def names():
-    out = ['pheno', 'basic_iv', 'basic_oral', 'basic_iv_nm', 'basic_oral_nm']
+    out = ['pheno', 'basic_iv', 'basic_oral', 'basic_iv_nm', 'basic_oral_nm', 'oral_cmt_nm', 'oral_periph_cmt_nm']
     for cid, rel in CANDIDATES:
         if os.path.exists(os.path.join(TESTDATA, rel)):
             try:
